@@ -148,7 +148,16 @@ class SpecMon(Monitor):
         return out
 
     def live_cells(self):
-        return tuple(self.det_pending)
+        out = list(self.det_pending)
+        # the three status-code digits stay refinable (and forms over them exact) until the code
+        # field has been compared: an accumulator loop over them must not be widened before that
+        v = self.vals.get("code")
+        if v is not None:
+            if v[0] == "cell":
+                out.append(v[1])
+            elif v[0] == "sym":
+                out.extend(s[1] for s, c in v[1] if isinstance(s, tuple) and s[0] == "c")
+        return tuple(out)
 
     def cells(self):
         out = list(self.dflt.cells()) if self.dflt is not None else []
